@@ -4,7 +4,7 @@
    format stores no value for a tombstone); [keys_sorted] = strictly ascending keys (bytes.Compare). *)
 From RV Require Import Model.SstTable Model.WriteRun Model.WalCodec.
 From RV Require Import Proofs.C17_Codec Proofs.C17_Table Proofs.C17_Bloom Proofs.C17_Reopen Proofs.C17_WriteRun
-        Proofs.C17_WriteRun2 Proofs.C17_Wal Proofs.C17_Get Proofs.C17_History Proofs.C17_Main.
+        Proofs.C17_WriteRun2 Proofs.C17_Wal Proofs.C17_Get Proofs.C17_History Proofs.C17_Main Proofs.C17_Fault.
 Open Scope N_scope.
 
 (* ---------- entry codec ---------- *)
@@ -56,6 +56,15 @@ Theorem level_reads_run_back : forall es target, 1 <= target -> run_ok es ->
   (forall key, level_get (map (fun c => reopen (write_table c)) (write_run es target)) key = get_spec es key).
 Proof. exact C17_Main.level_reads_run_back. Qed.
 Print Assumptions level_reads_run_back.
+
+(* One transient storage read failure while Table.Get reads an index key ([faulty rk bad] = the readKey callback that
+   fails at offset [bad]): the index search reports the error, or it never read that offset and returns exactly what
+   the healthy search returns. The failure is never turned into a comparison result. *)
+Theorem search_fault_surfaces : forall rk bad key clamp offs,
+  search_index_with (faulty rk bad) clamp offs key = SErr \/
+  search_index_with (faulty rk bad) clamp offs key = search_index_with rk clamp offs key.
+Proof. exact C17_Fault.search_fault_surfaces. Qed.
+Print Assumptions search_fault_surfaces.
 
 (* ---------- prefix scan ---------- *)
 Theorem table_scan_is_filter : forall es p,
